@@ -41,6 +41,8 @@ fn builder_alphabet() -> Vec<BOp> {
         v.push(BOp::Add(l, c, s("a"), s("n")));
         v.push(BOp::Add(l, c, s("c"), None));
         v.push(BOp::Add(l, c, s("a"), s("k")));
+        // a name on a token without a source (the builder interns it all the same)
+        v.push(BOp::Add(l, c, None, s("n")));
     }
     v.push(BOp::AddRaw(0, 5, false, false));
     v.push(BOp::AddRaw(2, 0, true, true));
@@ -480,6 +482,29 @@ pub fn run(run: &mut Run) -> Finish {
             });
         }
     }
+    // long interning: 15..40 distinct sources and names, then four of each again, then tokens that
+    // use them (anything the builder does differently for long tables is crossed)
+    let longs = [15usize, 16, 17, 18, 33, 40];
+    run.par_slice("builder, long tables: add_source / add_name of 15/16/17/18/33/40 distinct strings, the first, second, middle and last of them again, then add() with them", 60, longs.len() as u64, |idx, l| {
+        let n = longs[(idx & 0xffff) as usize];
+        let mut ops: Vec<BOp> = vec![];
+        for i in 0..n {
+            ops.push(BOp::AddSource(format!("s{i}.js")));
+            ops.push(BOp::AddName(format!("n{i}")));
+        }
+        for j in [0, 1, n / 2, n - 1] {
+            ops.push(BOp::AddSource(format!("s{j}.js")));
+            ops.push(BOp::AddName(format!("n{j}")));
+            ops.push(BOp::Add(1, 3, Some(format!("s{j}.js")), Some(format!("n{j}"))));
+        }
+        ops.push(BOp::AddSource("fresh.js".into()));
+        if let Some((sig, what)) = run_builder_history(&ops) {
+            l.violation(idx, Viol::new(format!("C13/{sig}/long-tables"), what, json!({"kind": "builder", "long": true, "ops": serde_json::to_value(&ops).unwrap()})));
+        }
+        l.traces += 1;
+        l.transitions += ops.len() as u64 + 1;
+        l.case(true, h64(&("long", n)));
+    });
     let malpha = map_alphabet();
     let nm = malpha.len() as u64;
     let mdepth = tier.pick(4usize, 6);
@@ -517,7 +542,8 @@ pub fn recheck(case: &Value) -> Vec<Viol> {
     match case["kind"].as_str() {
         Some("builder") => {
             let Ok(ops) = serde_json::from_value::<Vec<BOp>>(case["ops"].clone()) else { return vec![] };
-            run_builder_history(&ops).map(|(s, w)| Viol::new(format!("C13/{s}"), w, case.clone())).into_iter().collect()
+            let suffix = if case["long"] == json!(true) { "/long-tables" } else { "" };
+            run_builder_history(&ops).map(|(s, w)| Viol::new(format!("C13/{s}{suffix}"), w, case.clone())).into_iter().collect()
         }
         Some("map") => {
             let Ok(ops) = serde_json::from_value::<Vec<MOp>>(case["ops"].clone()) else { return vec![] };
